@@ -226,10 +226,19 @@ class FixedMarginBusiness(Sector):
                              '%s * %s' % (format_parameter(wage_share, '%0.3f'), market_sup_good))
             self.SetEquationRightHandSide('PROF', '%s * %s' % (format_parameter(self.ProfitMargin, '%0.3f'), market_sup_good))
         for s in self.Parent.SectorList:
+            # The recipient is a sector that declares dividends without being a business itself (a business
+            # acquires a 'DIV' variable of its own once it pays dividends).
+            if s.ID == self.ID or isinstance(s, FixedMarginBusiness):
+                continue
             if 'DIV' in s.EquationBlock.Equations:
                 Logger('Adding dividend flow', priority=5)
                 self.AddCashFlow('-DIV', 'PROF', 'Dividends paid', is_income=False)
-                s.AddCashFlow('DIV', self.GetVariableName('PROF'), 'Dividends received', is_income=True)
+                if s.EquationBlock['DIV'].RHS() in ('', '0.0'):
+                    s.AddCashFlow('DIV', self.GetVariableName('PROF'), 'Dividends received', is_income=True)
+                else:
+                    # Another business already pays this sector: the dividend inflow is booked once, and equals
+                    # the sum of the profits paid out.
+                    s.AddTermToEquation('DIV', self.GetVariableName('PROF'))
                 break
 
 
